@@ -16,6 +16,10 @@ def configs(tier):
         cs.append(dict(N=N, concurrency=c, capacity=cap, fn_fail=True, return_exceptions=True, return_x=True))
         cs.append(dict(N=N, concurrency=c, capacity=cap, fn_fail=True, return_exceptions=False, return_x=False))
     cs.append(dict(N=2, concurrency=2, capacity=None, fn_fail=True, pre_fail=True, return_exceptions=True))
+    # "for any input sequence": every element is a symbolic choice among a regular value and None, 0, False, '', ()
+    cs.append(dict(N=2, concurrency=1, capacity=1, return_x=True, odd_values=True))
+    if tier == 'thorough':
+        cs.append(dict(N=3, concurrency=2, capacity=None, return_x=False, odd_values=True))
     return cs
 
 
